@@ -47,6 +47,7 @@ RULE = (
     "cache) happened in a judged run after a monitor/interruption/flyer/stream-asset stream of that run had started, or a run "
     "ended before a rewound save/collect was executed again. "
     "Distinct = canonical JSON."
+    " Also plans with non-rewindable regions that emit events (sweep plan nonrewindable_region, generator option 'nr') with requests aimed at the rewindable toggles."
 )
 ASSUMPTIONS = [
     "requests and signal updates arrive at boundaries between event-loop callbacks",
